@@ -390,7 +390,7 @@ M('C03', 'from_ndarray zeroes the caller array', NPC,
 M('C03', 'tensordot transposes operands in place', NPC,
   """        a = a.copy(deep=False)  # shallow copy allows to call itranspose
         b = b.copy(deep=False)  # which would otherwise break views.
-""", "", 'OWN-write')
+""", "", 'OWN-callee')
 M('C03', 'MPS init keeps caller tensors', MPS,
   'self._B = [B.astype(dtype, copy=True).itranspose(self._B_labels) for B in Bs]',
   'self._B = [B.astype(dtype, copy=False).itranspose(self._B_labels) for B in Bs]',
@@ -585,6 +585,50 @@ M('C04', 'python split worker leaves flag', NPC, """    res._qdata = new_qdata
     res._data = new_data""", 'PAIR-effects')
 
 # ---------------------------------------------------------------- C16 / C19
+M('C16', 'Arnoldi keeps the basis of the previous run (original defect)', KRY,
+  "        self._cache = []  # drop the basis of a previous run()\n", '', 'KRYLOV-cache-reset')
+M('C16', 'cache emptied only when a rebuild is needed (seed a)', KRY,
+  """        self._cache = []  # free memory: we need at least two more vectors
+
+        self._rebuild_krylov_for_result_full(psif, N - len_cache - 1)
+""", """        N_missing = N - len_cache - 1
+        if N_missing > 0:
+            self._cache = []
+            self._rebuild_krylov_for_result_full(psif, N_missing)
+""", 'KRYLOV-cache-reset')
+M('C16', 'named rebuild count is an equivalent refactoring', KRY,
+  """        self._rebuild_krylov_for_result_full(psif, N - len_cache - 1)
+""", """        N_missing = N - 1 - len_cache
+        self._rebuild_krylov_for_result_full(psif, N_missing)
+""", None, 'silent')
+M('C16', 'rebuild count off by one', KRY,
+  'self._rebuild_krylov_for_result_full(psif, N - len_cache - 1)',
+  'self._rebuild_krylov_for_result_full(psif, N - len_cache)', 'KRYLOV-coefficients')
+M('C16', 'cached vectors paired with shifted coefficients', KRY,
+  'self.iadd_prefactor_other(psif, vf[N - k], self._cache[-k])',
+  'self.iadd_prefactor_other(psif, vf[N - k - 1], self._cache[-k])', 'KRYLOV-coefficients')
+M('C16', 'len_cache measured after emptying the cache', KRY,
+  """        len_cache = len(self._cache)
+        # and the last len_cache vectors have been cached
+        for k in range(1, min(len_cache + 1, N)):
+            self.iadd_prefactor_other(psif, vf[N - k], self._cache[-k])
+        # other vectors are not cached, so we need to restart the Lanczos iteration.
+        self._cache = []  # free memory: we need at least two more vectors
+""", """        for k in range(1, min(len(self._cache) + 1, N)):
+            self.iadd_prefactor_other(psif, vf[N - k], self._cache[-k])
+        # other vectors are not cached, so we need to restart the Lanczos iteration.
+        self._cache = []  # free memory: we need at least two more vectors
+        len_cache = len(self._cache)
+""", 'KRYLOV-coefficients')
+M('C16', 'Arnoldi Ritz vector accumulated into the first basis vector (seed b)', KRY,
+  """            if isinstance(self.psi0, npc.Array):
+                psi = vf[0] * krylov_basis[0]  # copy!
+            else:
+                assert isinstance(self.psi0, list)
+                psi = [p * vf[0] for p in krylov_basis[0]]
+""", """            psi = krylov_basis[0]
+            self.iscale_prefactor(psi, vf[0])
+""", 'KRYLOV-cache-readonly')
 M('C16', 'rebuild forgets second-last vector', KRY,
   """            elif k > 0:
                 self.iadd_prefactor_other(w, -beta, self._cache[-2])  # noqa: F821
